@@ -9,6 +9,7 @@
 -/
 import PtProofs.DistGraph
 import PtProofs.PartitionGood
+import PtProofs.PartitionWFFull
 namespace Pt.Dist
 
 /-- The executable checker is sound: a partition it accepts satisfies the contract. -/
@@ -130,11 +131,24 @@ theorem partition_wf_partial (base : Nat) {p : Program} (hp : GoodProgram p) :
     WFexec (partitionOf base p) :=
   partitionOf_wfexec base hp
 
-/-- The full statement (every clause of `WF`, i.e. also: received names are never part outputs,
-    name uniqueness, the round clauses) for the model partition.  NOT proved in this revision
-    (per instance it is decided by `checkWF` on the real partition, which the correspondence
-    ties to the model's); kept visible. -/
-def PartitionWFStatement : Prop := ∀ (base : Nat) (p : Program), GoodProgram p → WF (partitionOf base p)
+/-- **`partition_wf`: the partitioner produces well-formed partitions** — EVERY clause of `WF`
+    (the seven clauses of the property statement and the uniqueness / round clauses): besides
+    the executor clauses of `partition_wf_partial`, every output name is produced by exactly one
+    part; received names are never part outputs nor user inputs and are received once; inputs
+    are duplicate-free; parts are free of communication nodes; one send / one receive per
+    message id on a rank; every send has a receive on the destination rank; within a part all
+    receives belong to one round and all sends to one later round, and rounds never go backwards
+    along `needed_pids` (`round` = batch index of the message, the same on both ends).
+    Hypotheses: `GoodProgram p` and `NamesOK base p` (user names below the base of generated
+    names, distinct output names). -/
+theorem partition_wf (base : Nat) {p : Program} (hp : GoodProgram p) (hn : NamesOK base p) :
+    WF (partitionOf base p) :=
+  partitionOf_wf base hp hn
+
+/-- the executable name check is sufficient for `NamesOK` -/
+theorem partition_names_check_sound {base : Nat} {p : Program} (h : checkNames base p = true) :
+    NamesOK base p :=
+  checkNames_sound h
 
 /-- the executable check run by the tie is sufficient for `GoodProgram` -/
 theorem partition_check_sound {p : Program} (h : checkGood p = true) : GoodProgram p :=
@@ -198,6 +212,9 @@ def exProg : Program :=
 example : checkGood exProg = true := by decide +kernel
 example : GoodProgram exProg := partition_check_sound (by decide +kernel)
 example : checkWF (partitionOf 100 exProg) = true := by decide +kernel
+example : checkNames 100 exProg = true := by decide +kernel
+example : WF (partitionOf 100 exProg) :=
+  partition_wf 100 (partition_check_sound (by decide +kernel)) (partition_names_check_sound (by decide +kernel))
 
 /-- a two-rank partition accepted by the checker -/
 def exP9 : Partition :=
